@@ -60,10 +60,19 @@ def render_line(c, t):
 
 
 def run(ctx):
-    feat = C.draw_features(ctx)
-    W = C.World(ctx, feat)
-    ops = ctx.s("ops")
     cfg = ctx.s("cfg")
+    prof = cfg.draw(8)
+    base = {}
+    if prof == 0:
+        base = {"or_pre": True}
+        ctx.profile = "or-preconditions"
+    elif prof == 1:
+        base = {"forall_pre": True}
+        ctx.profile = "forall-preconditions"
+    feat = C.draw_features(ctx, base)
+    W = C.World(ctx, feat)
+    ctx.W = W
+    ops = ctx.s("ops")
     allow = cfg.chance(1, 2)
     n = cfg.draw(11)
     p_invalid = [0, 1, 2, 4][cfg.draw(4)]  # out of 8
@@ -184,6 +193,24 @@ def run(ctx):
     ctx.steps += len(plan)
 
 
+def pre_features(act):
+    """does the action's precondition use a construct whose evaluation is a recorded finding?"""
+    def has(f, k):
+        if f[0] == k:
+            return True
+        if f[0] in ("and", "or"):
+            return any(has(x, k) for x in f[1])
+        if f[0] == "forall":
+            return has(f[3], k)
+        return False
+    feats = {}
+    if has(act["pre"], "or"):
+        feats["or_pre"] = True
+    if has(act["pre"], "forall"):
+        feats["forall_pre"] = True
+    return feats
+
+
 def direct(ctx, op, st, kind, want, c):
     site = "Operator.apply"
     if kind == "invalid":
@@ -195,7 +222,8 @@ def direct(ctx, op, st, kind, want, c):
             raise Violation("C04/refusal-wrong-exception", site, f"{C.fmt_call(*c)}: {type(e).__name__}: {e}")
         else:
             raise Violation("C04/inapplicable-action-applied", site,
-                            f"{C.fmt_call(*c)} is inapplicable (reference) but apply() returned a state")
+                            f"{C.fmt_call(*c)} is inapplicable (reference) but apply() returned a state; "
+                            f"pre={G.r_f(ctx.W.action(c[0])['pre'])}", pre_features(ctx.W.action(c[0])))
         for kw in ({"allow_inapplicable_actions": True}, {"skip_validation": True}):
             try:
                 op.apply(st, **kw)
@@ -246,7 +274,8 @@ def check_triplets(ctx, W, S, plan, triplets, allow, site):
                     if not interp.state_eq(post, cur):
                         raise Violation("C04/invalid-step-changed-state", site,
                                         f"step {i} {C.fmt_call(*c)} is inapplicable and not allowed, but: "
-                                        f"{interp.state_diff(post, cur)}")
+                                        f"{interp.state_diff(post, cur)}; pre={G.r_f(W.action(c[0])['pre'])}",
+                                        pre_features(W.action(c[0])))
                 else:
                     cur = None
         prev_post = post
